@@ -3,8 +3,8 @@ package checks
 import (
 	"bytes"
 	"errors"
-	"sort"
 	"fmt"
+	"sort"
 	"time"
 
 	apiutils "github.com/wrgl/wrgl/pkg/api/utils"
